@@ -215,6 +215,9 @@ pub enum Op {
     Irs(IrsOp),
     /// show a held record to an issuer for another topic / identity / at another issuer
     CrossProbe(u16, Cross),
+    /// a quiet period of about 35 days (600 000 ledgers) without any call: nothing the issuers or registries
+    /// recorded (revocations, nonces, keys, claims) may lapse merely because nobody looked
+    LongQuiet,
 }
 
 #[derive(Clone, Debug, Serialize, Deserialize)]
@@ -280,7 +283,7 @@ fn claim_strategy() -> BoxedStrategy<ClaimOp> {
         9 => any::<u16>().prop_map(KeySel::Allowed),
         1 => scheme_strategy().prop_map(KeySel::Raw),
     ];
-    let ttl = prop_oneof![1 => Just(0u8), 2 => 1u8..=3, 6 => 4u8..=60];
+    let ttl = prop_oneof![1 => Just(0u8), 2 => 1u8..=3, 6 => 4u8..=60, 2 => Just(255u8)];
     let off = prop_oneof![3 => Just(0u8), 1 => 1u8..5];
     (
         0u8..N_IDENT as u8,
@@ -321,6 +324,7 @@ fn op_strategy() -> BoxedStrategy<Op> {
         2 => (0u8..N_ISS as u8, scheme_strategy(), 0u8..4).prop_map(|(issuer, scheme, topic)| Op::AllowKey { issuer, scheme, topic }),
         1 => (0u8..N_ISS as u8, scheme_strategy(), 0u8..4).prop_map(|(issuer, scheme, topic)| Op::RemoveKey { issuer, scheme, topic }),
         2 => (0u8..=8).prop_map(Op::Advance),
+        1 => Just(Op::LongQuiet),
         1 => irs.prop_map(Op::Irs),
         3 => (any::<u16>(), cross).prop_map(|(s, c)| Op::CrossProbe(s, c)),
     ]
@@ -802,7 +806,8 @@ impl World {
     /// `data`: sign these claim data instead of fresh ones (re-issuing an existing claim under the current nonce)
     fn build_with(&mut self, c: &ClaimOp, ident: usize, issuer: usize, topic: u32, scheme: Scheme, data: Option<Vec<u8>>) -> Rec {
         let now = self.now();
-        let valid_until = now + c.ttl as u64 * 5 + c.off as u64;
+        // ttl 255 = valid for years (so that the claim outlives a LongQuiet period)
+        let valid_until = if c.ttl == 255 { now + 100_000_000 } else { now + c.ttl as u64 * 5 + c.off as u64 };
         let data = data.unwrap_or_else(|| encode_data(now.saturating_sub(100), valid_until, &c.payload));
         let cur_nonce = self.m.nonce_of(issuer, ident, topic);
         let mut s = Signed { net_ok: true, issuer, ident, topic, nonce: cur_nonce, data: data.clone(), key_owner: issuer as u8, key_scheme: scheme };
@@ -1402,6 +1407,10 @@ pub fn run(case: &Case, ctx: &mut Ctx) -> R {
             Op::AllowKey { issuer, scheme, topic } => w.allow_key(*issuer as usize % N_ISS, *scheme, TOPICS[*topic as usize % 4], ctx, what)?,
             Op::RemoveKey { issuer, scheme, topic } => w.remove_key(*issuer as usize % N_ISS, *scheme, TOPICS[*topic as usize % 4], ctx, what)?,
             Op::Advance(k) => envx::advance(&e, *k as u32),
+            Op::LongQuiet => {
+                ctx.class("long_quiet_period");
+                envx::advance(&e, 600_000)
+            }
             Op::Irs(o) => irs_op(&mut w, o, ctx, what)?,
             Op::CrossProbe(sel, cross) => match w.held(*sel) {
                 Some(((ident, issuer, topic), r)) => {
